@@ -3,7 +3,7 @@ CONSTANTS
   MaxLen = 7
   MaxDepth = 3
   Fuel = 80
-  Alphabet = {"O", "IO", "EO", "EIO", "C", "IG", "EG", "EIG", "G", "L", "LP", "P", "INC"}
-  Names = {"y"}
+  Alphabet = {"O", "C", "G", "L", "P"}
+  Names = {"y", "z"}
 INVARIANTS MachineSane NoUB Monitors Scans EmitCase
 CHECK_DEADLOCK FALSE
